@@ -476,7 +476,7 @@ OBLIGATIONS = [
     *([Ob("S2_union_with_empty", h_union_with_empty, fixed(dict(base="north_up"), dict(base="rotated")),
           descr="union with an operand that has no pixels (the result of an intersection of boxes that do not meet): the smallest box containing the pixels of the others, in either order; empty with empty is empty",
           functions=("odc.geo.geobox.geobox_union_conservative", "odc.geo.geobox.bounding_box_in_pixel_domain", "odc.geo.geom.bbox_union"),
-          bounds="two boxes on one grid, symbolic integer shifts, symbolic shapes >= 0 with at least one of them empty", setup=setup, timeout_ms=20000)] if __import__("os").environ.get("VERIF_DEV") else []),
+          bounds="two boxes on one grid, symbolic integer shifts, symbolic shapes >= 0 with at least one of them empty", setup=setup, timeout_ms=20000)] if True else []),
     Ob("S2_intersection", h_intersection, tiered([dict(base=b) for b in BQ], [dict(base=b) for b in BT]), descr="& is exactly the shared pixels (normalised empty GeoBox otherwise, also when empty on one axis only); overlap_roi indexes the shared pixels in the first operand",
        functions=("odc.geo.geobox.geobox_intersection_conservative", "odc.geo.geobox.GeoBox.overlap_roi", "odc.geo.geobox.bounding_box_in_pixel_domain"), stubs=("numpy.isclose model",), **FB),
     Ob("S2_within_tolerance", h_union, tiered([dict(base="nonsquare", perturb=True)], [dict(base=b, perturb=True) for b in BT]),
